@@ -516,5 +516,5 @@ def phases(tier):
     return [
         Phase('fixed-family', check_case, gen=gen_fixed(), exhaustive=True, shards=8),
         Phase('literal-witnesses', check_case, gen=gen_witnesses(), exhaustive=True, shards=4),
-        Phase('generated', check_case, strategy=strategy, examples=400 if quick else 6000),
+        Phase('generated', check_case, strategy=strategy, examples=1600 if quick else 12000),
     ]
